@@ -198,7 +198,8 @@ func (x *xpoaConsensus) CheckMinerMatch(ctx xcontext.XContext, block cctx.BlockI
 	conStoreBytes, _ := block.GetConsensusStorage()
 	// 验证矿工身份
 	proposer := x.election.GetLocalLeader(block.GetTimestamp(), block.GetHeight(), conStoreBytes)
-	if proposer != string(block.GetProposer()) {
+	// GetLocalLeader返回空串表示无法计算出合法矿工, 此时任何区块(包括proposer为空的区块)都不应通过
+	if proposer == "" || proposer != string(block.GetProposer()) {
 		ctx.GetLog().Warn("Xpoa::CheckMinerMatch::calculate proposer error", "logid", ctx.GetLog().GetLogId(), "want", proposer,
 			"have", string(block.GetProposer()), "blockId", utils.F(block.GetBlockid()))
 		return false, MinerSelectErr
